@@ -264,6 +264,15 @@ def check_case(case):
             # the corrected vector describes the instance: every active selection variable names the wired option
             sel_edges = {e for e, _ in rec['ident'][1]}
             for i, m in enumerate(obs.des_vars):
+                if m['kind'] == 'sel' and not rec['active'][i]:
+                    c = spec_choices.get(m['node'])
+                    if c is not None and c['origin'] in rec['ident'][0] and \
+                            any((c['origin'], o) in sel_edges for o in c['opts']):
+                        res.add(viol('taken_choice_reported_inactive',
+                                     f'{mode} x={rec["x"]} x_corr={rec["x_corr"]} active={rec["active"]}: {m["name"]} is '
+                                     f'reported inactive but its choice took an option: {sorted(sel_edges)}',
+                                     data=dict(data_con)))
+                        break
                 if m['kind'] == 'sel' and rec['active'][i] and m.get('options') is not None:
                     c = spec_choices.get(m['node'])
                     if c is not None and (c['origin'], m['options'][int(rec['x_corr'][i])]) not in sel_edges:
